@@ -139,8 +139,8 @@ def run(ctx):
                 conds.append(xh.Cond(f"{name} multi={multi} default template, contributor + one free char at end", "C07.py", "_hdr", {"style": name, "multi": multi, "where": "contributor", "carve": carve}, timeout=tmo, twin="_hdr_reach"))
     # template behaviours, prefixes, years on representative styles
     reps = [("PythonCommentStyle", False), ("CCommentStyle", True), ("HtmlCommentStyle", True), ("LispCommentStyle", False), ("JuliaCommentStyle", True), ("EmptyCommentStyle", False)]
-    for (name, multi), tmpl in itertools.product(reps, ["no-licence", "no-copyright", "no-contributors", "nothing", "commented"]):
-        if tier == "quick" and name in ("LispCommentStyle", "JuliaCommentStyle") and tmpl not in ("no-licence",):
+    for (name, multi), tmpl in itertools.product(reps, ["no-licence", "no-copyright", "no-contributors", "nothing", "commented", "extra-copyright-no-licence", "extra-licence-no-copyright"]):
+        if tier == "quick" and name in ("LispCommentStyle", "JuliaCommentStyle") and tmpl not in ("no-licence", "extra-copyright-no-licence"):
             continue
         conds.append(xh.Cond(f"{name} multi={multi} template={tmpl}, holder + one free char at end", "C07.py", "_hdr", {"style": name, "multi": multi, "template": tmpl, "carve": carve}, timeout=tmo, twin="_hdr_reach"))
     for (name, multi), prefix, year in itertools.product(reps[:3] if tier == "quick" else reps, prefixes_q if tier == "quick" else ["spdx", "spdx-c", "spdx-string-c", "spdx-string", "spdx-string-symbol", "spdx-symbol", "string", "string-c", "string-symbol", "symbol"], [None, "2020", "1999 - 2003"]):
@@ -152,7 +152,9 @@ def run(ctx):
     if tier == "thorough":
         for name, multi in reps:
             conds.append(xh.Cond(f"{name} multi={multi} default template, holder + two free chars at end", "C07.py", "_hdr", {"style": name, "multi": multi, "nfree": 2, "carve": carve}, timeout=tmo, twin="_hdr_reach"))
+    conds.append(xh.Cond("real Jinja templates (bundled default, a project template, a pre-commented project template found through get_template) render the requested lines verbatim for every printable ASCII character", "C07.py", "_jinja", {}, timeout=tmo, twin="_jinja_reach"))
     ctx.functions_encoded = [
+        "reuse.cli.annotate.get_template / find_template (real Jinja environment, templates from vf/fixtures/proj/.reuse/templates)",
         "reuse.header._create_new_header",
         "reuse.comment.CommentStyle.create_comment / _create_comment_single / _create_comment_multi for every style class",
         "reuse.extract.extract_reuse_info, find_spdx_tag, filter_ignore_block; the real patterns (PYRE)",
@@ -162,13 +164,15 @@ def run(ctx):
     ctx.bounds = {
         "styles": f"{len(sts)} style classes x {{single, multi}} where supported",
         "request": "one copyright notice (holder 'Jane Doe' with ONE free character - any code point but line breaks - at the end" + ("/start/middle" if tier == "thorough" else "") + "), one contributor, one or two licence expressions; " + ("10" if tier == "thorough" else "3") + " prefixes x years {none, 2020, 1999 - 2003} on representative styles",
-        "templates": "default (validated against the bundled template), drops licences, drops copyright, drops contributors, drops everything, pre-commented",
+        "templates": "default (validated against the bundled template), drops licences, drops copyright, drops contributors, drops everything, pre-commented, adds a copyright line while dropping the licences, adds a licence while dropping the copyright; plus three real Jinja templates for rendering fidelity",
     }
     ctx.stubs = ["Jinja template -> TemplateModel (same render() contract)", "ReuseInfo fields are list-backed sets (no hashing of symbolic strings)", "module-level patterns wrapped in PyRe; licence parsing native"]
     ctx.outside = ["arbitrary user Jinja templates beyond the six behaviours", "more than one free character (thorough: two, on 6 style/form pairs)", ".license plumbing and write-back (C11)", "pre-existing file content (C08/C09/C10)"]
     ctx.assumptions = [f"PYRE == re on {n} comparisons; default-template model == bundled template on 300 inputs this run"]
 
     def confirm(c, ex):
+        if c.func == "_jinja":
+            return f"template-alters-text:{ex['template']}:{ex['character']!r}", f"template {ex['template']} does not render the request verbatim for holder {ex['holder']!r}: {ex['rendered']!r}", {"template": "jinja", "explain": ex}
         w = {k: ex[k] for k in ("style", "multi", "template", "prefix", "year", "holder", "contributor", "expressions")}
         if not replay(w):
             return None
